@@ -8,6 +8,11 @@
      operations completed meanwhile), given as the exact label sequence of the model up to the release of the worker;
      the model then lets the clock pass every due time and runs the worker to quiescence.  Compared: the values
      returned by Cancel(id) and the set of callbacks started (= values returned by Poll for a plain Queue).
+   CRun: several workers, a label sequence of the model (burst family: every worker steps into waitCond.Wait(), then a
+     burst of Adds; preload family: Adds at extreme / equal instants while no worker has been scheduled), then the clock
+     passes every ordinary time and the workers run to quiescence; the callbacks in [blocked] never return (gated
+     callback, or a consumer that polls once).  Compared: the set of callbacks started; with one worker their order
+     (= the heap's order of the abstract instants, ties included).
    CHist: a history recorded from a timing run (monotonic stamps in microseconds) with the verdicts of
      the Go-side oracle; the executable predicates of Model.v are re-evaluated on it. *)
 From Coq Require Import NArith List Bool Arith.
@@ -26,7 +31,8 @@ Definition obs := (option bool * nat * list nat * list nat)%type.
 Inductive case :=
 | CScript (nworkers maxsize : nat) (ops : list sop) (o : list obs)
 | CHist (band : N) (l : list ev) (verdict : list bool)
-| CWin (ls : list label) (rets : list bool) (started_ : list nat).
+| CWin (ls : list label) (rets : list bool) (started_ : list nat)
+| CRun (nworkers : nat) (ls : list label) (blocked : list nat) (tick : N) (ordered : bool) (started_ : list nat).
 
 (* can worker w take a step now?  A running callback that blocks returns only after SRelease. *)
 Definition w_enabled (s : st) (blocked : list nat) (ws : wst) : bool :=
@@ -119,6 +125,10 @@ Definition agree (c : case) : bool :=
       let s1 := run (set_now (init 1 0 IfOwn true true) T0) ls in
       let s2 := settle FUEL [] (step s1 (LTick 1000000000%N)) in
       boolsl_eqb (tcancel_rets (log s1)) rets && listn_eqb (sort (started (log s2))) st_
+  | CRun nw ls blocked tick ordered st_ =>
+      let s1 := run (set_now (init nw 0 IfOwn true true) T0) ls in
+      let s2 := settle FUEL blocked (step s1 (LTick tick)) in
+      if ordered then listn_eqb (rev (started (log s2))) st_ else listn_eqb (sort (started (log s2))) st_
   end.
 
 Fixpoint mismatches_from (i : nat) (cs : list case) : list nat :=
